@@ -47,6 +47,7 @@ class Scheduler:
         self.in_window_handover = {}
         self.snap_frames = [[] for _ in range(n)]
         self.prev_frame = [None] * n
+        self.lines_seen = set()
         # schedule coordinates: (thread, id of the innermost operation, yield count inside it) -- stable
         # under deletion of other operations, which is what lets the minimiser make progress
         self.opstack = [[["root", 0]] for _ in range(n)]
@@ -152,6 +153,7 @@ class Scheduler:
         top[1] += 1
         if filename is not None:
             self._track_windows(i, filename, loc[1], frame)
+            self.lines_seen.add((loc[0], loc[1]))
         tgt = self.policy.decide(self, i, loc)
         if tgt is not None and tgt != i and self.alive[tgt]:
             self.handovers.append((i, [top[0], top[1]], tgt, loc))
@@ -320,6 +322,70 @@ class Window(Policy):
         return o[self.rnd.randrange(len(o))]
 
 
+class Rendezvous(Policy):
+    """Race two threads through the SAME source line: run the victim until it is about to execute line L for the
+    k-th time, park it there, run the others until one of them arrives at L too (so it has just executed the lines
+    before L) or a budget runs out, then let the victim execute L.  Any bug that shares state between threads has
+    both threads passing through the code that touches that state; L is drawn uniformly from the distinct lines the
+    solo run executed, so rarely executed lines are as likely to be targeted as hot ones."""
+
+    def __init__(self, rnd, n, line, k, budget, p):
+        self.rnd = rnd
+        self.victim = rnd.randrange(n)
+        self.line = tuple(line)
+        self.k = k
+        self.budget = budget
+        self.p = p
+        self.seen = 0
+        self.state = "hunt"
+        self.used = 0
+
+    def first(self, s):
+        return self.victim
+
+    def decide(self, s, i, loc):
+        st = self.state
+        at_line = len(loc) >= 2 and (loc[0], loc[1]) == self.line
+        if st == "hunt":
+            if i != self.victim:
+                return self.victim if s.alive[self.victim] else None
+            if at_line:
+                self.seen += 1
+                if self.seen >= self.k:
+                    o = s.alive_others(i)
+                    if not o:
+                        self.state = "free"
+                        return None
+                    self.state = "parked"
+                    return o[self.rnd.randrange(len(o))]
+            return None
+        if st == "parked":
+            self.used += 1
+            if (at_line and i != self.victim) or self.used >= self.budget:
+                self.state = "free"
+                return self.victim if s.alive[self.victim] else None
+            return None
+        if self.rnd.random() < self.p:
+            o = s.alive_others(i)
+            if o:
+                return o[self.rnd.randrange(len(o))]
+        return None
+
+    def on_finish(self, s, i):
+        o = s.alive_others(i)
+        if not o:
+            return None
+        if self.state == "parked":
+            rest = [j for j in o if j != self.victim]
+            if rest:
+                return rest[self.rnd.randrange(len(rest))]
+            self.state = "free"
+            return self.victim
+        if self.state == "hunt" and s.alive[self.victim]:
+            return self.victim
+        return o[self.rnd.randrange(len(o))]
+
+
 class Explicit(Policy):
     """Replay of a recorded schedule: [[from, [op id, yield count inside that op] | 'fin', to], ...]."""
 
@@ -357,6 +423,10 @@ def make_policy(spec, n, rnd, expected_yields=4000):
         return PCT(rnd, n, spec["d"], expected_yields)
     if k == "window":
         return Window(rnd, n, spec["w"], spec["k"], spec["budget"], spec["p"])
+    if k == "rendezvous":
+        if spec.get("line") is None:  # the caller did not resolve a target line: degrade to random pre-emption
+            return RandomPolicy(rnd, 0.02)
+        return Rendezvous(rnd, n, spec["line"], spec["k"], spec["budget"], spec["p"])
     if k == "explicit":
         return Explicit(spec["schedule"], spec.get("first", 0))
     raise ValueError(k)
@@ -365,13 +435,17 @@ def make_policy(spec, n, rnd, expected_yields=4000):
 def draw_policy_spec(rnd):
     """Swarm choice of a scheduling strategy for one run."""
     r = rnd.random()
-    if r < 0.4:
+    if r < 0.3:
         import math
 
         p = math.exp(rnd.uniform(math.log(0.0005), math.log(0.3)))
         return {"kind": "random", "p": round(p, 5)}
-    if r < 0.6:
+    if r < 0.4:
         return {"kind": "pct", "d": rnd.choice([1, 2, 3])}
+    if r < 0.7:
+        # the target line is drawn by the check from the lines its solo run executed ("line": None here)
+        return {"kind": "rendezvous", "line": None, "k": rnd.choice([1, 1, 2, 3]), "budget": rnd.choice([2000, 100000]),
+                "p": rnd.choice([0.0, 0.02])}
     return {
         "kind": "window",
         "w": rnd.choice(WINDOWS),
